@@ -1,5 +1,5 @@
 """C39 — Multipart file serialization round-trips (spec/Multipart)."""
-import json, re
+import json, re, threading
 
 META = dict(
     spec="Multipart",
@@ -27,6 +27,16 @@ def run(ctx):
                        "each in form and attachment mode, full and shallow walk. non-trivial = a directory with a child, or a "
                        "node carrying a mode or an mtime")
     S = "Multipart"
+    # build the harness while TLC works (go_build only logs; results are collected before the replay)
+    built = {}
+
+    def build():
+        try:
+            built["bin"] = ctx.go_build("files", ["files/zz_verif_C39_test.go"])
+        except Exception as e:      # re-raised in the main thread
+            built["err"] = e
+    builder = threading.Thread(target=build)
+    builder.start()
 
     def mc_gen(cfg, timeout=3000):
         """one TLC run = phase M on the configuration + the generator (Emit prints every tree)"""
@@ -37,6 +47,7 @@ def run(ctx):
             if m and m.group(1) not in seen:
                 seen.add(m.group(1))
                 out.append(json.loads(m.group(1).replace('\\"', '"').replace("\\\\", "\\")))
+        out.sort(key=lambda b: (len(b["tree"]), json.dumps(b["tree"], sort_keys=True)))   # workers print in any order
         if res["ok"] and len(out) != res["distinct"] - 1:
             ctx.broken("generator %s: %d behaviours for %d trees" % (cfg, len(out), res["distinct"] - 1))
         return out
@@ -50,10 +61,13 @@ def run(ctx):
         ctx.tlc_mc(S, "MCMultipart.tla", "MCMultipartMeta.cfg", timeout=6000, deadlock=False)
         sets.append(("struct4", ctx.tlc_gen(S, "GenMultipart.tla", "GenMultipartBig.cfg", timeout=6000, workers=8)))
         sets.append(("meta3", ctx.tlc_gen(S, "GenMultipart.tla", "GenMultipartMetaBig.cfg", timeout=6000, workers=8)))
-    nsim = 30 if ctx.quick else 1500
+    nsim = 30 if ctx.quick else 800
     sets.append(("sim", ctx.tlc_gen(S, "GenMultipart.tla", "GenMultipartSim.cfg", simulate=nsim, depth=5 * 10 + 1,
                                     timeout=3000)))
-    binp = ctx.go_build("files", ["files/zz_verif_C39_test.go"])
+    builder.join()
+    if "err" in built:
+        raise built["err"]
+    binp = built["bin"]
 
     def nontrivial(b):
         t = b["tree"]
@@ -89,7 +103,7 @@ def replay(ctx, binp, name, behs, nontrivial):
                 ctx.broken("the Serialize model no longer matches MultiFileReader's wire format (round trip still agrees): " + what)
         elif r.get("dev"):
             ctx.deviation(r["dev"], what, dict(behaviour=beh, disagreement=r))
-        else:
+        elif len(ctx.violations) < 20:            # one replay file per failing behaviour, but do not flood
             ctx.violation(what, dict(behaviour=beh, disagreement=r))
     ctx.cov["traces_validated_against_impl"] += len(behs)
     ctx.cov["evaluations"] += len(behs)
